@@ -889,7 +889,7 @@ func main() {
 			Human: map[string]any{"token": t.Raw, "access_token": abbreviate(at), "access_token_len": len(at), "claims": c, "verifier": v}})
 	}
 	err := w.Close(emit.Meta{Property: "C01", Tier: cfg.Tier, Seed: cfg.Seed,
-		Rule:  "7/8 single calls, flow first: an all-correct ID token (claims with margins, really signed with a swept algorithm RS/PS/ES/EdDSA, 1/10 HS* with a static key set, key published in a remote key set) for a random verifier configuration (issuer / client id plain or with trailing slash, upper case, space, keyword, non-ASCII letter; offset 0/1s/-1s/5s/30s/5min, max iat age, max auth age, nonce nil/empty/keyword/fixed, acr list, allow-list), then 0-3 claim dimensions mutated (absent / wrong / near miss = trailing slash, case, white space, percent-encoding, Unicode case fold, NUL / keyword literal; times at -3..+3 s around each boundary on both sides of the offset and of the max ages; a configured option multiplies the draws of its dimension), 1/8 with a signature-level mutation, 1/16 with a payload beyond 1 KiB / 4 KiB; 3/5 through rp.VerifyTokens with an access token of length 0 / 1 / 12-72 / around 1 KiB, 2 KiB, 4 KiB, 64 KiB (hex, JWT-shaped, arbitrary bytes) and at_hash correct / absent / wrong / full hash / hash of a related token (common prefix of 1 KiB or 4 KiB, one byte changed, appended / dropped byte, case, white space) / other hash / near-miss string; the digests are computed by the driver. 1/8 sequences of 2-4 calls (VerifyIDToken / VerifyTokens mixed) on ONE verifier and key set: genuinely signed family (full, other subject, sparse claims, second signer) and header.payload.signature recombinations, access tokens A0 / A1 / a relative of A0. Non-trivial = model path != 0 (anything but a ParseToken reject); distinct = distinct input term.",
+		Rule:  "7/8 single calls, flow first: an all-correct ID token (claims with margins, really signed with a swept algorithm RS/PS/ES/EdDSA, 1/10 HS* with a static key set, key published in a remote key set) for a random verifier configuration (issuer / client id plain or with trailing slash, upper case, space, keyword, non-ASCII letter; offset 0/1s/-1s/5s/30s/5min, max iat age, max auth age, nonce nil/empty/keyword/fixed, acr list, allow-list), then 0-3 claim dimensions mutated (absent / wrong / near miss = trailing slash, case, white space, percent-encoding, Unicode case fold, NUL / keyword literal; times at -3..+3 s around each boundary on both sides of the offset and of the max ages; extreme claim times - year 1, negative NumericDates, now +- 2^63 ns, 2262, 2326, 9999, +-2^53 - for exp / iat / auth_time; a configured option multiplies the draws of its dimension), 1/8 with a signature-level mutation, 1/16 with a payload beyond 1 KiB / 4 KiB; 3/5 through rp.VerifyTokens with an access token of length 0 / 1 / 12-72 / around 1 KiB, 2 KiB, 4 KiB, 64 KiB (hex, JWT-shaped, arbitrary bytes) and at_hash correct / absent / wrong / full hash / hash of a related token (common prefix of 1 KiB or 4 KiB, one byte changed, appended / dropped byte, case, white space) / other hash / near-miss string; the digests are computed by the driver. 1/8 sequences of 2-4 calls (VerifyIDToken / VerifyTokens mixed) on ONE verifier and key set: genuinely signed family (full, other subject, sparse claims, second signer) and header.payload.signature recombinations, access tokens A0 / A1 / a relative of A0. Non-trivial = model path != 0 (anything but a ParseToken reject); distinct = distinct input term.",
 		Extra: map[string]any{"clock_ambiguous": amb}})
 	if err != nil {
 		fmt.Fprintln(os.Stderr, err)
